@@ -3,7 +3,7 @@
    one line per operation. *)
 From NV Require Import Base.Util Base.Sexp Base.IntTy Base.FloatBits Base.Float Base.Expr
      Macro.Surface Macro.Ast Macro.Parse Macro.Validate Macro.Messages Macro.Inventory Macro.GenTests
-     Sem.Guard Sem.Value Sem.Eval Sem.Conv Sem.Text Sem.Bytes Sem.ArbInt Sem.ArbStr Sem.ArbFloat Sem.Order Spec.GuardSpec Spec.Reference Run.Lib Run.Decode.
+     Sem.Guard Sem.Value Sem.Eval Sem.Conv Sem.Text Sem.Json Sem.Bytes Sem.ArbInt Sem.ArbStr Sem.ArbFloat Sem.ArbFloatDecide Sem.Order Spec.GuardSpec Spec.Reference Run.Lib Run.Decode.
 From NV.Unicode Require UnicodeData UStr.
 Local Open Scope string_scope.
 
@@ -17,6 +17,15 @@ Definition dec_opt_value (x : sexp) : option (option value) :=
   | A "none" => Some None
   | _ => do v <- dec_value x; Some (Some v)
   end.
+
+(* JSON white space around a document: space, \t, \n, \r *)
+Definition json_ws (c : N) : bool := (N.eqb c 32 || N.eqb c 9 || N.eqb c 10 || N.eqb c 13)%bool.
+Fixpoint drop_ws (l : list N) : list N :=
+  match l with
+  | c :: r => if json_ws c then drop_ws r else l
+  | [] => []
+  end.
+Definition json_trim (l : list N) : list N := rev (drop_ws (rev (drop_ws l))).
 
 Definition run_op (d : decl) (op : sexp) : string :=
   let lib := the_lib d in
@@ -46,6 +55,26 @@ Definition run_op (d : decl) (op : sexp) : string :=
           | OOk x => match op_display_int d x with Some s => pr_value (VS s) | None => "na" end
           | _ => "rejected"
           end
+      | None => "bad_value" end
+  | L [A "de_json_t"; v] =>
+      (* the JSON document itself: the model reads it (Sem/Json) for String and integer newtypes *)
+      match dec_value v with
+      | Some (VS doc) =>
+          match d_family d with
+          | FStr | FInt _ _ => pr_outcome (op_deserialize lib d (json_de_inner (d_family d) (json_trim doc)))
+          | _ => "na"
+          end
+      | _ => "bad_value" end
+  | L [A "ser_json_t"; v] =>
+      match dec_value v with
+      | Some v =>
+          if has_trait TrSerialize (d_traits d) then
+            match d_family d, construct lib d v with
+            | FStr, OOk x | FInt _ _, OOk x => pr_value (VS (json_ser_inner x))
+            | (FStr | FInt _ _), _ => "rejected"
+            | _, _ => "na"
+            end
+          else "na"
       | None => "bad_value" end
   | L [A "de"; v] =>
       match dec_opt_value v with Some i => pr_outcome (op_deserialize lib d i) | None => "bad_value" end
@@ -89,6 +118,12 @@ Definition run_op (d : decl) (op : sexp) : string :=
       match arb_boundary d with
       | Some (lo, hi) => "range " ++ string_of_Z lo ++ " " ++ string_of_Z hi
       | None => "range none"
+      end
+  | L [A "arb_decide"] =>
+      match arb_float_decide d with
+      | AVTotal => "total"
+      | AVPanicsOn bs => "panics " ++ pr_list "b" (map string_of_Z bs)
+      | AVUnknown => "unknown"
       end
   | L [A "spec"; v] =>
       match dec_value v with
